@@ -1,5 +1,5 @@
 #!/usr/bin/env python3
-"""C12 -- extraction is a pure function: deterministic, cache- and history-independent (DESIGN.md 3.C12)."""
+"""C12 -- extraction is a pure function: deterministic, cache- and history-independent (DESIGN.md section 4, C12)."""
 import hashlib
 import io
 import json
@@ -44,7 +44,7 @@ MANIFEST_ENTRY = {
             "interleaving, caching off and page-at-a-time extraction.",
     "note": "Trusted: Coq kernel, the AST-based generator, history harness; hidden state outside the inventory would only "
             "be seen by the harness.",
-    "design_ref": "DESIGN.md 3.C12",
+    "design_ref": "DESIGN.md section 4, C12",
 }
 
 WORKDIR = os.path.join(common.WORK, "c12")
